@@ -9,9 +9,13 @@ import (
 	"fmt"
 	"math/rand"
 	"os"
+	"os/signal"
 	"runtime"
 	"sort"
 	"strings"
+	"sync"
+	"syscall"
+	"time"
 
 	"verifharness/lib"
 )
@@ -29,7 +33,7 @@ func main() {
 			ids = append(ids, k)
 		}
 		sort.Strings(ids)
-		fmt.Fprintln(os.Stderr, "usage: vh <property> [--tier quick|thorough] [--seed N] [--model path] [--out file] [--replay file]\nproperties:", strings.Join(ids, " "))
+		fmt.Fprintln(os.Stderr, "usage: vh <property> [--tier quick|thorough] [--seed N] [--model path] [--out file] [--replay file] [--budget seconds] [--hang-budget seconds]\nproperties:", strings.Join(ids, " "))
 		os.Exit(2)
 	}
 	id := strings.ToLower(os.Args[1])
@@ -43,15 +47,61 @@ func main() {
 	model := fs.String("model", "", "path of the sftpmodel driver")
 	out := fs.String("out", "-", "result file")
 	replay := fs.String("replay", "", "replay file")
+	budget := fs.Float64("budget", 0, "soft deadline of the whole run in seconds: afterwards no new cases are generated and the result is returned normally (default 600 quick, 5400 thorough)")
+	hangBudget := fs.Float64("hang-budget", 0, "total seconds the run may spend waiting on hang deadlines before they are shortened and hanging classes are skipped (default 120 quick, 900 thorough)")
 	fs.Parse(os.Args[2:])
 	f, ok := checks[id]
 	if !ok {
 		fmt.Fprintln(os.Stderr, "vh: unknown property", id)
 		os.Exit(2)
 	}
+	t0 := time.Now()
 	r := lib.NewResult(strings.ToUpper(id), *tier, *seed)
 	c := &lib.Ctx{Tier: *tier, Seed: *seed, ModelPath: *model, Replay: *replay, Rand: rand.New(rand.NewSource(*seed)), R: r}
-	func() {
+	vhResult = r
+	lib.ConfigureBudget(*tier, time.Duration(*budget*float64(time.Second)), time.Duration(*hangBudget*float64(time.Second)))
+
+	// The result must survive the death of this process: SIGTERM/SIGINT write what is recorded so far (exit status 4),
+	// and every 10 s a checkpoint goes to <out>.partial, which is all that is left after a SIGKILL.
+	var finish sync.Mutex // held while the final (or the interrupted) result is written
+	partial := ""
+	if *out != "" && *out != "-" {
+		partial = *out + ".partial"
+	}
+	sigs := make(chan os.Signal, 2)
+	signal.Notify(sigs, syscall.SIGTERM, syscall.SIGINT)
+	go func() {
+		sig := <-sigs
+		finish.Lock() // never released: the process exits below
+		lib.RunInterruptHooks()
+		r.Note("interrupted by %v after %.0f s: partial result, only what had been recorded by then", sig, time.Since(t0).Seconds())
+		r.MarkIncomplete("interrupted by %v", sig)
+		lib.BudgetReport(r)
+		err := r.Write(*out)
+		if partial != "" {
+			os.Remove(partial)
+		}
+		lib.CloseBudget()
+		if err != nil {
+			fmt.Fprintln(os.Stderr, "vh:", err)
+			os.Exit(2)
+		}
+		fmt.Fprintf(os.Stderr, "vh: interrupted by %v; partial result written\n", sig)
+		os.Exit(4)
+	}()
+	if partial != "" {
+		go func() {
+			for {
+				time.Sleep(10 * time.Second)
+				finish.Lock()
+				r.Write(partial)
+				finish.Unlock()
+			}
+		}()
+	}
+	returned := make(chan struct{})
+	go func() {
+		defer close(returned)
 		// a panic of the code under test inside the harness process is an observation, not a harness failure
 		defer func() {
 			if p := recover(); p != nil {
@@ -62,11 +112,81 @@ func main() {
 		}()
 		f(c)
 	}()
-	if err := r.Write(*out); err != nil {
+	// Watchdog.  A check that calls into the package without a deadline of its own can be blocked for ever by a defect
+	// that makes calls hang; whatever it has recorded must still be reported.  The check is abandoned (its result
+	// written as it stands, with a failure that names the package call its goroutines are blocked in) when
+	//   - it has shown no activity — no Result method, no budget query, no ledger line of a child — for a quarter of
+	//     the run's budget (quick: 150 s, more than three times what a whole healthy quick run takes), or
+	//   - it has not returned by the soft deadline plus a quarter (it ignores lib.Expired / lib.Stop somewhere).
+	soft := lib.SoftTotal()
+	stallLimit := max(60*time.Second, soft/4)
+	hardLimit := soft + max(30*time.Second, soft/4)
+	lib.Touch()
+watch:
+	for {
+		select {
+		case <-returned:
+			break watch
+		case <-time.After(time.Second):
+		}
+		lib.PollLedger()
+		why := ""
+		switch {
+		case soft > 0 && time.Since(t0) > hardLimit:
+			why = fmt.Sprintf("the check had not returned %.0f s after its soft deadline of %.0f s", (hardLimit - soft).Seconds(), soft.Seconds())
+		case soft > 0 && lib.SinceActivity() > stallLimit:
+			why = fmt.Sprintf("the check showed no activity for %.0f s", stallLimit.Seconds())
+		}
+		if why == "" {
+			continue
+		}
+		finish.Lock() // never released: the process exits below
+		lib.RunInterruptHooks()
+		started, callers := cliPkgGoroutines()
+		frame := "no-package-frame"
+		if len(callers) > 0 {
+			frame = cliShortFn(callers[0].PkgFrame())
+		} else if len(started) > 0 {
+			frame = "started/" + cliShortFn(started[0].PkgFrame())
+		}
+		kind := "oracle"
+		if len(callers) == 0 {
+			kind = "tie" // nothing of the harness is inside the package: the harness itself is stuck or too slow
+		}
+		r.Fail(lib.Failure{Kind: kind, Key: "hang/check-blocked-in/" + frame,
+			What:     why + " and was abandoned; goroutines of the harness blocked inside calls of pkg/sftp (and goroutines the package started) are listed in `actual`. The result holds what had been recorded by then",
+			Input:    map[string]any{"property": r.Property, "tier": r.Tier, "seed": r.Seed, "note": "not a single replayable case: re-run the check; the blocked call is the finding"},
+			Expected: "every call into the package returns", Actual: map[string]any{"callers_blocked_in_package": cliDescribe(callers), "package_goroutines": cliDescribe(started)}})
+		r.Note("abandoned after %.0f s: %s", time.Since(t0).Seconds(), why)
+		r.MarkIncomplete("abandoned: %s", why)
+		lib.BudgetReport(r)
+		err := r.Write(*out)
+		if partial != "" {
+			os.Remove(partial)
+		}
+		lib.CloseBudget()
+		if err != nil {
+			fmt.Fprintln(os.Stderr, "vh:", err)
+			os.Exit(2)
+		}
+		fmt.Fprintln(os.Stderr, "vh: abandoned:", why)
+		os.Exit(0)
+	}
+	finish.Lock()
+	lib.BudgetReport(r)
+	err := r.Write(*out)
+	if partial != "" {
+		os.Remove(partial)
+	}
+	lib.CloseBudget()
+	if err != nil {
 		fmt.Fprintln(os.Stderr, "vh:", err)
 		os.Exit(2)
 	}
 }
+
+// vhResult is the result of the run in progress (for helpers that salvage findings when the run is interrupted).
+var vhResult *lib.Result
 
 // childMain dispatches sub-process work: vh child <name> args…
 var children = map[string]func(args []string){}
@@ -80,5 +200,17 @@ func childMain(args []string) {
 		fmt.Fprintln(os.Stderr, "vh: unknown child", args[0])
 		os.Exit(2)
 	}
+	// a child must not outlive the run it belongs to (the parent may be killed while the child waits on a hang deadline)
+	if ppid := os.Getppid(); ppid > 1 {
+		go func() {
+			for {
+				time.Sleep(500 * time.Millisecond)
+				if os.Getppid() != ppid {
+					os.Exit(5)
+				}
+			}
+		}()
+	}
+	defer lib.FlushBudget()
 	f(args[1:])
 }
